@@ -373,7 +373,7 @@ func (w *c10World) load(j *world.Jar) (s *sessions.SessionState, err error) {
 			s, err = nil, fmt.Errorf("PANIC in Load: %v", p)
 		}
 	}()
-	s, err = w.px.P.sessionStore.Load(w.request(j))
+	s, err = verifSessionStore(w.px.P).Load(w.request(j))
 	if w.redis != nil {
 		w.calls = len(w.redis.Calls)
 	}
@@ -477,7 +477,7 @@ func c10Run(seed int64, k c10Case) (res *c10Res) {
 			res.HarnessErr = fmt.Sprintf("panic while running %s: %v", k, p)
 		}
 	}()
-	store := w.px.P.sessionStore
+	store := verifSessionStore(w.px.P)
 	viol := func(key, f string, a ...any) {
 		res.V = append(res.V, c10V{key, k.String() + ": " + fmt.Sprintf(f, a...)})
 	}
@@ -728,7 +728,7 @@ func c10Thresholds(seed int64, nameLen int, tail string) ([]int, int) {
 	count := func(l int) int {
 		probes++
 		rec := httptest.NewRecorder()
-		if err := w.px.P.sessionStore.Save(rec, w.request(world.NewJar()), c10Session(c10Spec{"plain", l})); err != nil {
+		if err := verifSessionStore(w.px.P).Save(rec, w.request(world.NewJar()), c10Session(c10Spec{"plain", l})); err != nil {
 			panic(err)
 		}
 		return len(rec.Header().Values("Set-Cookie"))
